@@ -53,14 +53,17 @@ pub enum Chan {
     StdoutFile,
     /// stdout captured from a pipe and handed to the next stage
     StdoutPipe,
+    /// `-o /dev/stdout`: the output path names something that is not a regular file (a pipe behind a device node; FIFOs,
+    /// /dev/fd/N and process substitutions look the same to the tool: not seekable, not truncatable, no fsync)
+    DevStdout,
 }
 
 impl Chan {
     fn name(&self) -> &'static str {
-        match self { Chan::OFile => "-o FILE", Chan::ODir => "-o DIR", Chan::StdoutFile => "stdout>file", Chan::StdoutPipe => "stdout|pipe" }
+        match self { Chan::OFile => "-o FILE", Chan::ODir => "-o DIR", Chan::StdoutFile => "stdout>file", Chan::StdoutPipe => "stdout|pipe", Chan::DevStdout => "-o /dev/stdout" }
     }
     fn from_name(s: &str) -> Option<Chan> {
-        [Chan::OFile, Chan::ODir, Chan::StdoutFile, Chan::StdoutPipe].iter().find(|c| c.name() == s).cloned()
+        [Chan::OFile, Chan::ODir, Chan::StdoutFile, Chan::StdoutPipe, Chan::DevStdout].iter().find(|c| c.name() == s).cloned()
     }
 }
 
@@ -91,6 +94,12 @@ pub struct Tuple {
     /// every stage is invoked through the repository's `fml` wrapper script (`fml parse …`, `fml compile …`, `fml execute …` with
     /// PARSER/COMPILER/INTERPRETER pointing at the binary) instead of the binary itself
     pub wrapper_stages: bool,
+    /// the guest program's stdout fails for good at one of its own writes — under `run` and under `execute` alike: whatever
+    /// the tool does about it, the two ways of running the program must do the same
+    pub guest_stdout_fault: String,
+    /// Some((stage, plan)): an earlier invocation of that very stage in the same directory was killed (SIGKILL) in the middle
+    /// of writing its output; whatever it left behind is the durable state the real invocation starts from
+    pub crash_before: Option<(usize, String)>,
 }
 
 pub const INPUT_NAMES: &[&str] = &["prog.fml", "prog.fml", "job.1.fml", "my prog.fml", "prog.v2.final.fml", "прог.fml", "noext", "a.b", "UPPER.FML", "x.json.fml", "trailing.dot..fml"];
@@ -99,7 +108,8 @@ impl Tuple {
     pub fn to_json(&self) -> Value {
         json!({"format": self.format.ext(), "parse_flag": self.parse_flag, "parse_stdin": self.parse_stdin, "parse_out": self.parse_out.name(),
                "compile_flag": self.compile_flag, "compile_stdin": self.compile_stdin, "compile_out": self.compile_out.name(), "exec_stdin": self.exec_stdin,
-               "profile": self.profile.name(), "plans": self.plans, "wrapper": self.wrapper, "input_name": self.input_name, "stale": self.stale, "hash_seed": self.hash_seed, "hard_stage": self.hard_stage, "wrapper_stages": self.wrapper_stages})
+               "profile": self.profile.name(), "plans": self.plans, "wrapper": self.wrapper, "input_name": self.input_name, "stale": self.stale, "hash_seed": self.hash_seed, "hard_stage": self.hard_stage, "wrapper_stages": self.wrapper_stages, "guest_stdout_fault": self.guest_stdout_fault,
+               "crash_before": self.crash_before.as_ref().map(|(s, p)| json!([s, p]))})
     }
     pub fn from_json(v: &Value) -> Option<Tuple> {
         let plans = v.get("plans")?.as_array()?;
@@ -120,18 +130,20 @@ impl Tuple {
             hash_seed: v.get("hash_seed")?.as_u64()?,
             hard_stage: v.get("hard_stage").and_then(|x| x.as_u64()).map(|x| x as usize),
             wrapper_stages: v.get("wrapper_stages").and_then(|x| x.as_bool()).unwrap_or(false),
+            guest_stdout_fault: v.get("guest_stdout_fault").and_then(|x| x.as_str()).unwrap_or("").to_string(),
+            crash_before: v.get("crash_before").and_then(|x| x.as_array()).and_then(|a| Some((a.get(0)?.as_u64()? as usize, a.get(1)?.as_str()?.to_string()))),
         })
     }
 
     /// Only combinations in which a format is determinable are generated (DESIGN §5.3).
     pub fn random(rng: &mut Rng, format: Fmt) -> Tuple {
-        let parse_out = rng.pick(&[Chan::OFile, Chan::OFile, Chan::ODir, Chan::StdoutFile, Chan::StdoutPipe]).clone();
+        let parse_out = rng.pick(&[Chan::OFile, Chan::OFile, Chan::OFile, Chan::ODir, Chan::ODir, Chan::StdoutFile, Chan::StdoutFile, Chan::StdoutPipe, Chan::StdoutPipe, Chan::DevStdout]).clone();
         // format selection for parse: by extension only possible with -o FILE
         let parse_flag = if parse_out == Chan::OFile && rng.coin() { None } else { Some(rng.pick(format.aliases()).to_string()) };
-        let compile_stdin = parse_out == Chan::StdoutPipe || rng.below(4) == 0;
+        let compile_stdin = parse_out == Chan::StdoutPipe || parse_out == Chan::DevStdout || rng.below(4) == 0;
         let compile_flag = if compile_stdin || rng.below(3) == 0 { Some(rng.pick(format.aliases()).to_string()) } else { None };
-        let compile_out = rng.pick(&[Chan::OFile, Chan::OFile, Chan::ODir, Chan::StdoutFile, Chan::StdoutPipe]).clone();
-        let exec_stdin = compile_out == Chan::StdoutPipe || rng.below(4) == 0;
+        let compile_out = rng.pick(&[Chan::OFile, Chan::OFile, Chan::OFile, Chan::ODir, Chan::ODir, Chan::StdoutFile, Chan::StdoutFile, Chan::StdoutPipe, Chan::StdoutPipe, Chan::DevStdout]).clone();
+        let exec_stdin = compile_out == Chan::StdoutPipe || compile_out == Chan::DevStdout || rng.below(4) == 0;
         let mut plans = [String::new(), String::new(), String::new()];
         for p in plans.iter_mut() {
             *p = match rng.below(7) {
@@ -159,13 +171,15 @@ impl Tuple {
             hash_seed: rng.next_u64(),
             hard_stage: None,
             wrapper_stages: false,
+            guest_stdout_fault: String::new(),
+            crash_before: None,
         }
     }
 
     pub fn plain(format: Fmt, profile: Profile) -> Tuple {
         Tuple { format, parse_flag: Some(format.ext().to_string()), parse_stdin: false, parse_out: Chan::OFile, compile_flag: None, compile_stdin: false,
                 compile_out: Chan::OFile, exec_stdin: false, profile, plans: [String::new(), String::new(), String::new()], wrapper: false,
-                input_name: "prog.fml".into(), stale: false, hash_seed: 11, hard_stage: None, wrapper_stages: false }
+                input_name: "prog.fml".into(), stale: false, hash_seed: 11, hard_stage: None, wrapper_stages: false, guest_stdout_fault: String::new(), crash_before: None }
     }
 }
 
@@ -254,6 +268,8 @@ pub struct Staged {
     pub hard_fired: [u64; 3],
     /// exit of each stage that ran
     pub exits: [Option<Exit>; 3],
+    /// killed predecessor invocations that really died inside their output
+    pub crashes_fired: u64,
 }
 
 fn count_calls(trace: &str) -> [u64; 4] {
@@ -271,7 +287,7 @@ fn count_hard(trace: &str) -> u64 {
 fn stage_shim(t: &Tuple, stage: usize, source_len: usize) -> Option<ShimCfg> {
     // bounded liveness: the budget grows with the data (one byte per call is a legal delivery; the serialized AST of a program is
     // well below 400 times its source)
-    Some(ShimCfg { seed: t.hash_seed.wrapping_add(stage as u64), plan: t.plans[stage].clone(), clock: None, junk: 0, budget: Some(3_000_000 + 400 * source_len as u64) })
+    Some(ShimCfg { seed: t.hash_seed.wrapping_add(stage as u64), plan: t.plans[stage].clone(), clock: None, junk: 0, budget: Some(3_000_000 + 400 * source_len as u64), ..Default::default() })
 }
 
 fn count_faults(trace: &str) -> u64 {
@@ -291,11 +307,24 @@ fn stage_child(t: &Tuple, argv: &[&str]) -> Child {
     c
 }
 
+/// The earlier, killed invocation of a stage (same command line, same directory): runs until the shim kills it.
+fn crashed_predecessor(t: &Tuple, stage: usize, dir: &std::path::Path, c: &Child, st: &mut Staged) {
+    if let Some((s, plan)) = &t.crash_before {
+        if *s == stage {
+            let mut k = c.clone();
+            k.shim = Some(ShimCfg { seed: t.hash_seed ^ 0xdead, plan: plan.clone(), budget: Some(3_000_000), ..Default::default() });
+            let r = run_child(dir, &k);
+            st.children += 1;
+            if r.trace.contains("KILLED") { st.crashes_fired += 1; }
+        }
+    }
+}
+
 pub fn run_staged(source: &str, t: &Tuple) -> Staged {
     let dir = scratch_dir();
     let input_name: &str = if t.wrapper { "prog.fml" } else { t.input_name.as_str() };
     std::fs::write(dir.join(input_name), source).unwrap();
-    let mut st = Staged { ast_bytes: None, bc_bytes: None, exec: None, failed: None, children: 0, faults_fired: 0, budget_exceeded: false, calls: [[0; 4]; 3], hard_fired: [0; 3], exits: [None, None, None] };
+    let mut st = Staged { ast_bytes: None, bc_bytes: None, exec: None, failed: None, children: 0, faults_fired: 0, budget_exceeded: false, calls: [[0; 4]; 3], hard_fired: [0; 3], exits: [None, None, None], crashes_fired: 0 };
     let ext = t.format.ext();
     if t.wrapper {
         // bash <repo>/fml run prog.fml with PARSER/COMPILER/INTERPRETER pointing at the binary
@@ -343,6 +372,7 @@ pub fn run_staged(source: &str, t: &Tuple) -> Staged {
         }
         Chan::StdoutFile => Some(format!("redirected.{}", ext)),
         Chan::StdoutPipe => None,
+        Chan::DevStdout => { args.push("-o".into()); args.push("/dev/stdout".into()); None }
     };
     let argv: Vec<&str> = args.iter().map(|s| s.as_str()).collect();
     let mut c = stage_child(t, &argv);
@@ -353,6 +383,7 @@ pub fn run_staged(source: &str, t: &Tuple) -> Staged {
         _ => c.stdout = Out::Pipe,
     }
     c.shim = stage_shim(t, 0, source.len());
+    crashed_predecessor(t, 0, &dir, &c, &mut st);
     let r = run_child(&dir, &c);
     st.children += 1;
     st.calls[0] = count_calls(&r.trace);
@@ -418,12 +449,14 @@ pub fn run_staged(source: &str, t: &Tuple) -> Staged {
         }
         Chan::StdoutFile => Some("redirected.bc".into()),
         Chan::StdoutPipe => None,
+        Chan::DevStdout => { args.push("-o".into()); args.push("/dev/stdout".into()); None }
     };
     let argv: Vec<&str> = args.iter().map(|s| s.as_str()).collect();
     let mut c = stage_child(t, &argv);
     if t.compile_stdin { c.stdin = In::File(ast_file.clone()); }
     if t.compile_out == Chan::StdoutFile { c.stdout = Out::File("redirected.bc".into()); }
     c.shim = stage_shim(t, 1, source.len());
+    crashed_predecessor(t, 1, &dir, &c, &mut st);
     let r = run_child(&dir, &c);
     st.children += 1;
     st.calls[1] = count_calls(&r.trace);
@@ -468,6 +501,9 @@ pub fn run_staged(source: &str, t: &Tuple) -> Staged {
     let mut c = if t.exec_stdin { stage_child(t, &["execute"]) } else { stage_child(t, &["execute", bc_file.as_str()]) };
     if t.exec_stdin { c.stdin = In::File(bc_file.clone()); }
     c.shim = stage_shim(t, 2, source.len());
+    if !t.guest_stdout_fault.is_empty() {
+        if let Some(sh) = c.shim.as_mut() { sh.plan = if sh.plan.is_empty() { t.guest_stdout_fault.clone() } else { format!("{};{}", sh.plan, t.guest_stdout_fault) }; }
+    }
     let r = run_child(&dir, &c);
     st.children += 1;
     st.calls[2] = count_calls(&r.trace);
@@ -545,10 +581,14 @@ pub fn batch_collision(a: &Prepared, b: &Prepared, f: Fmt, profile: Profile, see
 }
 
 pub fn run_direct(source: &str, profile: Profile, seed: u64) -> ChildResult {
+    run_direct_with(source, profile, seed, "")
+}
+
+pub fn run_direct_with(source: &str, profile: Profile, seed: u64, plan: &str) -> ChildResult {
     let dir = scratch_dir();
     std::fs::write(dir.join("prog.fml"), source).unwrap();
     let mut c = Child::new(profile, &["run", "prog.fml"]);
-    c.shim = Some(ShimCfg { seed, ..Default::default() });
+    c.shim = Some(ShimCfg { seed, plan: plan.to_string(), ..Default::default() });
     let r = run_child(&dir, &c);
     let _ = std::fs::remove_dir_all(&dir);
     r
@@ -660,7 +700,7 @@ fn hard_sites(t: &Tuple, stage: usize, calls: &[[u64; 4]; 3]) -> Vec<(char, u64)
     // output side: parse and compile only (an unwritable stdout of the *guest* is no property's subject)
     if stage < 2 {
         let out = if stage == 0 { &t.parse_out } else { &t.compile_out };
-        match out { Chan::OFile | Chan::ODir => v.push(('f', c[1])), Chan::StdoutFile | Chan::StdoutPipe => v.push(('o', c[0])) }
+        match out { Chan::OFile | Chan::ODir | Chan::DevStdout => v.push(('f', c[1])), Chan::StdoutFile | Chan::StdoutPipe => v.push(('o', c[0])) }
     }
     // input side
     let stdin = match stage { 0 => t.parse_stdin, 1 => t.compile_stdin, _ => t.exec_stdin };
@@ -747,7 +787,7 @@ pub fn judge_hard(prep: &Prepared, t: &Tuple, direct: &ChildResult, st: &Staged)
 pub fn replay_case(case: &Case) -> Result<Option<Verdict>, String> {
     let source = case.spec.source().ok_or("no source")?;
     let prep = match prepare(&source) { Some(p) => p, None => return Ok(None) };
-    let direct = run_direct(&source, case.tuple.profile, case.tuple.hash_seed);
+    let direct = run_direct_with(&source, case.tuple.profile, case.tuple.hash_seed, &case.tuple.guest_stdout_fault);
     let st = run_staged(&source, &case.tuple);
     if case.tuple.hard_stage.is_some() { return Ok(judge_hard(&prep, &case.tuple, &direct, &st)); }
     Ok(judge(&prep, &case.tuple, &direct, &st))
@@ -780,6 +820,8 @@ pub fn minimise(case: &Case, oracle: &str) -> Case {
     }
     try_field!(wrapper);
     try_field!(wrapper_stages);
+    try_field!(crash_before);
+    try_field!(guest_stdout_fault);
     try_field!(exec_stdin);
     try_field!(compile_out);
     try_field!(compile_stdin);
@@ -946,6 +988,48 @@ fn exercise(name: &str, spec: &ProgSpec, rng: &mut Rng, n_tuples: usize, n_hard:
         }
         if let Some(v) = judge_hard(&prep, &t, direct, &st) {
             out.violations.push((Case { spec: spec.clone(), tuple: t.clone() }, v));
+        }
+    }
+    // ---- the guest's stdout fails at one of its own writes, under run and under execute alike -----------------------
+    // ---- and: an earlier invocation of one stage was killed in the middle of its output ------------------------------
+    for round in 0..n_hard {
+        let f = *rng.pick(&Fmt::ALL);
+        let mut t = Tuple::random(rng, f);
+        t.plans = [String::new(), String::new(), String::new()];
+        if !directs.iter().any(|(p, _)| *p == t.profile) {
+            directs.push((t.profile, run_direct(&source, t.profile, 17)));
+            out.children += 1;
+        }
+        let direct = directs.iter().find(|(p, _)| *p == t.profile).unwrap().1.clone();
+        if round % 2 == 0 {
+            let n = direct.trace.lines().filter(|l| l.starts_with("W o ")).count() as u64;
+            if n == 0 { continue; }
+            let at = match rng.below(4) { 0 => 0, 1 | 2 => n - 1, _ => rng.below(n) };
+            let errno = *rng.pick(&[28u32, 32, 5, 27]);
+            t.guest_stdout_fault = if rng.coin() { format!("o:{}:x:{}", at, errno) } else { format!("o:{}:s:1;o:{}:x:{}", at, at + 1, errno) };
+            let direct2 = run_direct_with(&source, t.profile, 17, &t.guest_stdout_fault);
+            let st = run_staged(&source, &t);
+            out.children += 1 + st.children;
+            out.evaluations += 1;
+            out.distinct.push(digest_of(&(digest, &t)));
+            out.counters.push(("pipelines_with_the_same_stdout_failure_under_run_and_execute".into(), 1));
+            if let Some(v) = judge(&prep, &t, &direct2, &st) {
+                out.violations.push((Case { spec: spec.clone(), tuple: t.clone() }, v));
+            }
+        } else {
+            let stage = rng.usize_below(2);
+            let outc = if stage == 0 { &t.parse_out } else { &t.compile_out };
+            let cls = match outc { Chan::OFile | Chan::ODir | Chan::DevStdout => 'f', _ => 'o' };
+            t.crash_before = Some((stage, format!("{}:{}:K:{}", cls, rng.below(2), rng.pick(&[0u32, 1, 5, 40, 300]))));
+            let st = run_staged(&source, &t);
+            out.children += st.children;
+            out.evaluations += 1;
+            out.distinct.push(digest_of(&(digest, &t)));
+            out.counters.push(("pipelines_after_a_killed_invocation_of_one_stage".into(), 1));
+            if st.crashes_fired > 0 { out.counters.push(("pipelines_after_a_killed_invocation_where_the_kill_fired".into(), 1)); }
+            if let Some(v) = judge(&prep, &t, &direct, &st) {
+                out.violations.push((Case { spec: spec.clone(), tuple: t.clone() }, v));
+            }
         }
     }
     out
